@@ -727,6 +727,104 @@ fn stream_a_case(out: &mut Out, r: &mut Rng, variant: usize) {
 }
 
 // ---------------------------------------------------------------------------------------------
+// stream K (round 3, after seeded miss C06-6): keys whose memoised hash is filled lazily (static construction — what the
+// macros emit) are cloned by some threads while another makes the first `get_hash()` call, under EVERY interleaving of
+// the yield points inside `Key::get_hash` / `Key::clone`; then the original and every clone are registered. They are
+// equal keys: one storage, listed once, and deleting through a clone removes it. (That the memo protocol itself is
+// coherent is C03's subject; here the consequence for the registry is checked on the real registry.)
+
+#[cfg(has_cow_hook)]
+fn lazy_clone_cases(out: &mut Out, r: &mut Rng, thorough: bool) {
+    use crate::c03;
+    let role_sets: Vec<&'static [u8]> = if thorough { vec![b"hc", b"ch", b"hcc", b"chc", b"cch"] } else { vec![b"hc", b"hcc"] };
+    for roles in role_sets {
+        // two grants more per thread than the calls need today, so that a version of `get_hash` / `clone` with more
+        // (or re-ordered) shared-memory steps is still interleaved at every one of them, not run to completion by
+        // the scheduler's fallback
+        let counts: Vec<usize> = c03::grants_of(roles).iter().map(|g| g + 2).collect();
+        let scheds: Vec<Vec<usize>> = if roles.len() == 2 {
+            c03::all_interleavings(&counts) // 462
+        } else {
+            // three threads: a seeded sample of shuffled multisets
+            (0..if thorough { 1500 } else { 120 })
+                .map(|_| {
+                    let mut s: Vec<usize> = counts.iter().enumerate().flat_map(|(t, n)| vec![t; *n]).collect();
+                    for i in (1..s.len()).rev() {
+                        s.swap(i, r.below(i + 1));
+                    }
+                    s
+                })
+                .collect()
+        };
+        for (si, sch) in scheds.iter().enumerate() {
+            out.case(&format!("lazy-clone roles={} sched#{}", String::from_utf8_lossy(roles), si));
+            let kind = (si % 3) as u8;
+            let name: &'static str = Box::leak(format!("lazy{}", si % 5).into_boxed_str());
+            let labels: &'static [Label] = Box::leak(vec![Label::from_static_parts("x", "0"), Label::from_static_parts("y", "1")].into_boxed_slice());
+            let key: &'static Key = Box::leak(Box::new(match si % 2 {
+                0 => Key::from_static_parts(name, labels),
+                _ => Key::from_static_labels(name.to_string(), labels),
+            }));
+            let rv = roles.to_vec();
+            let (trace, res) = c03::sched::run(roles.len(), sch, move |t| {
+                c03::sched::point("start");
+                if rv[t] == b'h' {
+                    let _ = key.get_hash();
+                    None
+                } else {
+                    Some(key.clone())
+                }
+            });
+            let mut sut: Sut<Key, AtomicStorage> = Sut::new(Registry::atomic());
+            let mut rf = RefMap::default();
+            out.op(&format!("registry new {}", sut.mask + 1), "ok");
+            let kt = kind_tok(kind);
+            let canon = canon_key(key);
+            let g0 = sut.goc(kind, key);
+            out.op(&format!("registry goc {} 0:{}", kt, key.hashable()), &g0.id.to_string());
+            rf.goc(out, kind, 0, &g0, &canon);
+            let grants = || list(trace.iter().map(|(t, id)| format!("{}:{}", t, id)));
+            let mut last: Option<Key> = None;
+            for cl in res.into_iter().flatten() {
+                if cl != *key {
+                    out.oracle_fail("a clone taken while the original was being hashed for the first time is not == the original", &grants());
+                }
+                let g = sut.goc(kind, &cl);
+                out.op(&format!("registry goc {} 0:{}", kt, cl.hashable()), &g.id.to_string());
+                let before = out.n_oracle_fail;
+                rf.goc(out, kind, 0, &g, &canon);
+                if out.n_oracle_fail != before {
+                    out.oracle_fail(
+                        "equal keys, two storages: a clone taken while the original key was being hashed for the first time was given its own storage",
+                        &format!("roles {}, grants {}: original hashes to {:#x}, the clone to {:#x}", String::from_utf8_lossy(roles), grants(), key.hashable(), cl.hashable()),
+                    );
+                }
+                last = Some(cl);
+            }
+            let v = sut.handles(kind);
+            let mut ans: Vec<(usize, usize)> = v.iter().map(|(_, g)| (0usize, g.id)).collect();
+            out.op(&format!("registry handles {}", kt), &pairs_tok(&mut ans));
+            let got: Vec<(usize, usize)> = v.iter().map(|(_, g)| (0usize, g.addr)).collect();
+            rf.check_listing(out, "get_*_handles", kind, &got);
+            if let Some(cl) = last {
+                let b = sut.del(kind, &cl);
+                out.op(&format!("registry del {} 0:{}", kt, cl.hashable()), &b.to_string());
+                rf.del(out, kind, 0, b);
+                let g = sut.get(kind, key);
+                out.op(&format!("registry get {} 0:{}", kt, key.hashable()), &g.as_ref().map_or("~".to_string(), |g| g.id.to_string()));
+                rf.get(out, kind, 0, &g);
+            }
+            out.count("lazy-clone schedules");
+            out.nontrivial();
+        }
+    }
+}
+#[cfg(not(has_cow_hook))]
+fn lazy_clone_cases(out: &mut Out, _: &mut Rng, _: bool) {
+    out.count("lazy-clone schedules skipped (cow-clone hook absent)");
+}
+
+// ---------------------------------------------------------------------------------------------
 // stream B
 
 #[derive(Clone, Copy, PartialEq, Debug)]
@@ -1779,6 +1877,10 @@ fn real_mask() -> usize {
 
 pub fn run(cfg: &Cfg, out: &mut Out) {
     let root = Rng::new(cfg.seed);
+    {
+        let mut r = root.fork(9_000_001);
+        lazy_clone_cases(out, &mut r, cfg.thorough);
+    }
     let (fk, fclasses) = fixed_keys();
     let call = |op: OpK, kind: u8, i: usize| BCall { op, kind, cls: fk[i].0, key: fk[i].1.clone() };
 
